@@ -814,6 +814,12 @@ fn spec_case(ctx: &mut CaseCtx) -> CaseResult {
         guarded(&mut res, &format!("Logger::try_with_str({s:?})"), || {
             let _ = Logger::try_with_str(&s).map(|_| ());
         });
+        // the other entry points for a temporary specification (with a parsed one, if there is)
+        if let Ok(parsed) = LogSpecification::parse(&s) {
+            calls += 2;
+            guarded(&mut res, "push_temp_spec", || handle.push_temp_spec(parsed.clone()));
+            guarded(&mut res, "set_new_spec", || handle.set_new_spec(parsed));
+        }
         if rng.chance(1, 3) {
             guarded(&mut res, "pop_temp_spec", || handle.pop_temp_spec());
         }
